@@ -469,6 +469,9 @@ func (ev *astEnv) eval(x ast.Expr) Value {
 			}
 			return sv
 		}
+		if _, ok := t.Underlying().(*types.Array); ok && len(n.Elts) == 0 {
+			return e.zeroVal(t)
+		}
 		panic(unsupported("composite literal of " + t.String()))
 	}
 	panic(unsupported(fmt.Sprintf("contract expression %T", x)))
@@ -716,6 +719,19 @@ func (ev *astEnv) call(n *ast.CallExpr) Value {
 			panic(unsupported("argN outside a call-site assertion or out of range"))
 		}
 		return e.callArgs[k]
+	case "verif_sameslice":
+		a, ok1 := ev.eval(n.Args[0]).(*SliceV)
+		b, ok2 := ev.eval(n.Args[1]).(*SliceV)
+		if !ok1 || !ok2 {
+			panic(unsupported("sameslice of non-slices"))
+		}
+		if a.Base == nil || b.Base == nil {
+			return c.And(a.Nil, b.Nil)
+		}
+		if a.Base.Obj != b.Base.Obj || len(a.Base.Path) != len(b.Base.Path) {
+			return False
+		}
+		return c.And(c.Eq(a.Off, b.Off), c.Eq(a.Len, b.Len))
 	case "verif_rangeidx":
 		// number of completed iterations of the range loop whose invariant is being evaluated
 		if ev.loop != nil && ev.loop.rangeIdx != nil && ev.f != nil {
@@ -751,7 +767,7 @@ func (ev *astEnv) call(n *ast.CallExpr) Value {
 			// small constant range: expand
 			var parts []*Term
 			for k := sext(lo.C, 64); k < sext(hi.C, 64); k++ {
-				sub := &astEnv{e: e, s: ev.s, f: ev.f, vars: ev.vars, info: ev.info, old: ev.old, results: ev.results, bound: map[types.Object]Value{}}
+				sub := &astEnv{e: e, s: ev.s, f: ev.f, vars: ev.vars, info: ev.info, old: ev.old, results: ev.results, bound: map[types.Object]Value{}, loop: ev.loop}
 				for bk, bv := range ev.bound {
 					sub.bound[bk] = bv
 				}
@@ -769,7 +785,7 @@ func (ev *astEnv) call(n *ast.CallExpr) Value {
 		outer := ev
 		q := &Quant{forall: fobj.Name() == "verif_forall", lo: lo, hi: hi, kind: quantInt}
 		q.body = func(k *Term) *Term {
-			sub := &astEnv{e: e, s: snap, f: outer.f, vars: outer.vars, info: outer.info, old: outer.old, results: outer.results, bound: map[types.Object]Value{}}
+			sub := &astEnv{e: e, s: snap, f: outer.f, vars: outer.vars, info: outer.info, old: outer.old, results: outer.results, bound: map[types.Object]Value{}, loop: outer.loop}
 			for bk, bv := range outer.bound {
 				sub.bound[bk] = bv
 			}
